@@ -19,6 +19,13 @@ using Gen = BSplineGenerator<double>;
 W void w_mk_grid2(void *mem) { new (mem) Gr(std::vector<double>{0.0, 1.0}); }
 W void w_mk_empty1(void *mem, const Gr *g) { new (mem) S1(*g); }
 W void w_mk_empty2(void *mem, const Gr *g) { new (mem) S2(*g); }
+// objects built by the real constructors from a Support and a coefficient vector laid out by the harness (std::vector has the
+// standard library's layout; Support/Spline keep whatever private representation they have)
+W void w_ctor(void *mem, const Gr *g, size_t s, size_t e) { new (mem) Sup(*g, s, e); }
+W void w_mk_spline1(void *mem, const Sup *s, std::vector<std::array<double, 2>> *v) { new (mem) S1(*s, std::move(*v)); }
+W void w_mk_spline2(void *mem, const Sup *s, std::vector<std::array<double, 3>> *v) { new (mem) S2(*s, std::move(*v)); }
+W size_t w_sstart(const S2 *s) { return s->getSupport().getStartIndex(); }
+W size_t w_send(const S2 *s) { return s->getSupport().getEndIndex(); }
 W double w_eval(const S2 *s, double x) { return (*s)(x); }
 W double w_eval1(const S1 *s, double x) { return (*s)(x); }
 W int w_iszero(const S2 *s) { return s->isZero(); }
